@@ -16,6 +16,7 @@ mod sim_d1;
 mod sim_d2;
 mod sim_e;
 mod sim_f;
+mod sim_g;
 mod world;
 
 use kit::{Opts, Sim};
@@ -40,6 +41,7 @@ fn dispatch_run(prop: &str, opts: &Opts) -> i32 {
         "C08" => kit::run_batch(&sim_e::SimE, opts).exit_code,
         "C12" => kit::run_batch(&sim_d1::SimD1, opts).exit_code,
         "C06" => kit::run_batch(&sim_d2::SimD2, opts).exit_code,
+        "C20" => kit::run_batch(&sim_g::SimG, opts).exit_code,
         other => {
             eprintln!("HARNESS-ERROR: no simulator registered for property {other}");
             2
@@ -61,6 +63,7 @@ fn dispatch_plan(prop: &str, seed: u64, i: u64) -> i32 {
         "C08" => kit::print_plan(&sim_e::SimE, seed, i),
         "C12" => kit::print_plan(&sim_d1::SimD1, seed, i),
         "C06" => kit::print_plan(&sim_d2::SimD2, seed, i),
+        "C20" => kit::print_plan(&sim_g::SimG, seed, i),
         _ => return 2,
     }
     0
@@ -81,6 +84,7 @@ fn dispatch_replay(file: &serde_json::Value, verif_dir: &str) -> i32 {
         "C08" => kit::replay(&sim_e::SimE, file, verif_dir),
         "C12" => kit::replay(&sim_d1::SimD1, file, verif_dir),
         "C06" => kit::replay(&sim_d2::SimD2, file, verif_dir),
+        "C20" => kit::replay(&sim_g::SimG, file, verif_dir),
         other => {
             eprintln!("HARNESS-ERROR: no simulator registered for property {other}");
             2
